@@ -8,10 +8,12 @@
 import ast
 import builtins
 import collections
+import datetime as _dtm
 import functools
 import inspect
 import itertools
 import operator
+import os
 import pathlib
 import string as _string
 import types
@@ -52,6 +54,7 @@ from .values import (
     py_un,
 )
 
+VERIF_DIR = os.path.dirname(os.path.dirname(os.path.abspath(__file__)))
 CMP_NAMES = {ast.Eq: "Eq", ast.NotEq: "NotEq", ast.Lt: "Lt", ast.LtE: "LtE", ast.Gt: "Gt", ast.GtE: "GtE", ast.In: "In", ast.NotIn: "NotIn", ast.Is: "Is", ast.IsNot: "IsNot"}
 RICH = {"Eq": ("__eq__", "__eq__"), "NotEq": ("__ne__", "__ne__"), "Lt": ("__lt__", "__gt__"), "Gt": ("__gt__", "__lt__"), "LtE": ("__le__", "__ge__"), "GtE": ("__ge__", "__le__")}
 NATIVE_CMP = {"Eq": operator.eq, "NotEq": operator.ne, "Lt": operator.lt, "LtE": operator.le, "Gt": operator.gt, "GtE": operator.ge}
@@ -286,7 +289,7 @@ class Interp:
         String equalities are emitted as regex memberships (keeps the path condition in the pure InRe fragment)."""
         is_str = term.sort() == z3.StringSort()
         eq = (lambda v: z3.InRe(term, z3.Re(v))) if is_str else (lambda v: term == v)
-        py = lambda v: v.as_string() if z3.is_string_value(v) else v.as_long()
+        py = lambda v: solver.zs(v) if z3.is_string_value(v) else v.as_long()
         key = (term.get_id(), tuple(c.get_id() for c in self.pc))
         cache = self.__dict__.setdefault("_split_cache", {})
         if key not in cache:
@@ -856,6 +859,19 @@ class Interp:
                     r = m(self, o.base, name)
                     if r is not NOTIMPL:
                         return r
+                if self.concrete(o.base) and hasattr(o.base, name) and isinstance(o.base, _dtm.datetime) and name in ("replace", "astimezone", "__add__", "__sub__", "__radd__"):
+                    def meth(*a, _n=name, **k):
+                        try:
+                            r = getattr(o.base, _n)(*[self.unbase(x) for x in a], **{kk: self.unbase(vv) for kk, vv in k.items()})
+                        except Exception as e:
+                            raise PyRaise(e)
+                        if type(r) is type(o.base):  # datetime methods return instances of the subclass (CPython >= 3.8)
+                            w = PObj(o.cls, r)
+                            self.allocs.append(w)
+                            return w
+                        return r
+
+                    return meth
                 if self.concrete(o.base) and hasattr(o.base, name):
                     if name == "real" and type(o.base) is float:
                         return float.fromhex(o.base.hex())  # .real of a float *subclass* instance is a new float object (matters for NaN identity)
@@ -879,7 +895,22 @@ class Interp:
             if f is PClass.MISSING:
                 for b in o.native_bases():
                     if hasattr(b, name):
-                        return getattr(b, name)
+                        v = getattr(b, name)
+                        if isinstance(b, type) and issubclass(b, _dtm.date) and getattr(v, "__self__", None) is b and callable(v):
+                            # alternative constructors of datetime called on the subclass return an instance of the subclass
+                            def ctor(*a, _v=v, _b=b, **k):
+                                try:
+                                    r = _v(*[self.unbase(x) for x in a], **{kk: self.unbase(vv) for kk, vv in k.items()})
+                                except Exception as e:
+                                    raise PyRaise(e)
+                                if type(r) is _b:
+                                    w = PObj(o, r)
+                                    self.allocs.append(w)
+                                    return w
+                                return r
+
+                            return ctor
+                        return v
                 raise PyRaise(AttributeError(f"type object '{o.name}' has no attribute '{name}'"))
             if isinstance(f, PFunc) and f.kind == "class":
                 return PBound(f, o)
@@ -996,6 +1027,7 @@ class Interp:
             env["__class__"] = f.owner
             if params:
                 env["__first__"] = env[params[0]]
+        env.func = f
         return env
 
     def default_value(self, f, key, node, denv):
@@ -1024,6 +1056,17 @@ class Interp:
                 r = c(self, fn, args, kwargs)
                 if r is not NOTIMPL:
                     return r
+            memo = getattr(fn, "memo", None)
+            if memo is not None and all(self.concrete(a) for a in args) and all(self.concrete(v) for v in kwargs.values()):
+                try:
+                    key = (tuple(args), tuple(sorted(kwargs.items())))
+                    hash(key)
+                except TypeError:
+                    key = None
+                if key is not None:
+                    if key not in memo:
+                        memo[key] = self.run_function(fn, args, kwargs)  # (an exception is not cached, like functools)
+                    return memo[key]
             return self.run_function(fn, args, kwargs)
         if isinstance(fn, PClass):
             return self.instantiate(fn, args, kwargs)
@@ -1072,7 +1115,7 @@ class Interp:
             or (isinstance(slf, list) and fn.__name__ in ("append", "pop", "extend", "insert", "reverse", "copy", "clear"))
             or (isinstance(slf, (dict, collections.ChainMap)) and fn.__name__ in ("get", "pop", "update", "items", "keys", "values", "setdefault", "copy", "popitem", "clear", "move_to_end"))
             or (isinstance(slf, set) and fn.__name__ in ("add", "discard", "update") and all(not isinstance(a, Sym) for a in allv))
-            or isinstance(fn, types.FunctionType)  # contract-level helper written in Python
+            or isinstance(fn, types.FunctionType) and fn.__code__.co_filename.startswith(VERIF_DIR)  # contract-level helper written in Python (never a library function)
         )
         if shape_only or all(self.concrete(a) for a in allv):
             if isinstance(slf, dict) and fn.__name__ in ("get", "pop", "setdefault", "__getitem__") and args and not self.concrete(args[0]):
@@ -1129,6 +1172,9 @@ class Interp:
                 # pathlib (3.12): object.__new__(cls) followed by PurePath.__init__(self, *args)
                 nb = [b for b in o.cls.native_bases() if issubclass(b, pathlib.PurePath)][0]
                 a = [self.unbase(x) for x in args]
+                for x in a:
+                    if isinstance(x, PObj) or isinstance(x, (int, float, bytes, list, tuple, dict)) and not isinstance(x, str):
+                        raise PyRaise(TypeError(f"argument should be a str or an os.PathLike object where __fspath__ returns a str, not '{self.type_name(x)}'"))
                 if all(self.concrete(x) for x in a):
                     try:
                         o.base = nb(*a)
@@ -1165,6 +1211,12 @@ class Interp:
             found, v = env.lookup(name)
             if found:
                 return v
+            e = env
+            while e is not None and getattr(e, "func", None) is None:
+                e = e.parent
+            if e is not None and name in local_names(e.func) and name not in e.globals_declared:
+                # the name is a local variable of the running function that has not been assigned on this path (a global of the same name is not consulted)
+                raise PyRaise(UnboundLocalError(f"cannot access local variable '{name}' where it is not associated with a value"))
         elif name in env:
             return env[name]
         if name in mod.g:
@@ -1352,8 +1404,10 @@ class Interp:
                 v = prop
             elif ds == "contextmanager" or ds.endswith(".contextmanager"):
                 f.is_contextmanager = True
-            elif "lru_cache" in ds or ds in ("abc.abstractmethod", "abstractmethod") or ds.startswith("wraps(") or ds.startswith("functools.wraps("):
-                pass  # assumed: identity (cached functions are deterministic and side-effect free)
+            elif "lru_cache" in ds:
+                f.memo = {}  # memoised on concrete hashable arguments (object identity of the result matters: classes); never evicted
+            elif ds in ("abc.abstractmethod", "abstractmethod") or ds.startswith("wraps(") or ds.startswith("functools.wraps("):
+                pass
             else:
                 dv = self.eval(d, env, mod)
                 v = self.call(dv, [v], {})
@@ -1683,6 +1737,38 @@ class Interp:
 
 RICH_REFLECT = {"__lt__": "__gt__", "__gt__": "__lt__", "__le__": "__ge__", "__ge__": "__le__", "__eq__": "__eq__", "__ne__": "__ne__"}
 SYMBOL = {"Eq": "==", "NotEq": "!=", "Lt": "<", "LtE": "<=", "Gt": ">", "GtE": ">="}
+
+
+def local_names(f):
+    """Names bound anywhere in the function body (Python decides local-ness statically)."""
+    cached = f.__dict__.get("_locals")
+    if cached is not None:
+        return cached
+    names, glob = set(), set()
+    node = f.node
+    a = node.args
+    for x in a.posonlyargs + a.args + a.kwonlyargs + ([a.vararg] if a.vararg else []) + ([a.kwarg] if a.kwarg else []):
+        names.add(x.arg)
+    stack = list(node.body) if isinstance(node.body, list) else []
+    while stack:
+        n = stack.pop()
+        if isinstance(n, (ast.FunctionDef, ast.ClassDef, ast.AsyncFunctionDef)):
+            names.add(n.name)
+            continue
+        if isinstance(n, (ast.Lambda, ast.ListComp, ast.SetComp, ast.DictComp, ast.GeneratorExp)):
+            continue
+        if isinstance(n, (ast.Global, ast.Nonlocal)):
+            glob.update(n.names)
+        if isinstance(n, ast.Name) and isinstance(n.ctx, (ast.Store, ast.Del)):
+            names.add(n.id)
+        if isinstance(n, ast.ExceptHandler) and n.name:
+            names.add(n.name)
+        if isinstance(n, (ast.Import, ast.ImportFrom)):
+            for al in n.names:
+                names.add((al.asname or al.name).split(".")[0])
+        stack.extend(ast.iter_child_nodes(n))
+    f.__dict__["_locals"] = names - glob
+    return f.__dict__["_locals"]
 
 
 def has_yield(fnode):
